@@ -26,6 +26,7 @@ HDR = {
     "CL1": [b"Content-Length: 1", b"content-length:1", b"CONTENT-LENGTH: \t1 \t", b"Content-Length: 01"],
     "CL2": [b"Content-Length: 2", b"content-length:2", b"CONTENT-LENGTH: \t2 \t", b"Content-Length: 002"],
     "CL3": [b"Content-Length: 3", b"content-length:3", b"CONTENT-LENGTH: \t3 \t", b"Content-Length: 03"],
+    "CL5": [b"Content-Length: 5", b"content-length:5", b"CONTENT-LENGTH: \t5 \t", b"Content-Length: 005"],
     "CLbad": [b"Content-Length: +1", b"Content-Length: 1_0", b"Content-Length: 0x1", b"Content-Length: 1 2",
               b"Content-Length: 1,1", b"Content-Length: ", b"Content-Length: -1", b"Content-Length: 1.0",
               b"Content-Length: \xb2", b"Content-Length: 1e1", b"Content-Length: \xbd", b"Content-Length:",
@@ -64,7 +65,7 @@ HDR = {
     "Under": [b"X_Foo: bar", b"Content_Length: 3", b"Transfer_Encoding: chunked", b"X_Forwarded_For: 1.2.3.4"],
 }
 # kinds whose value may be padded (PAD bytes appended to the value / leading zeros for CL)
-PADDABLE = {"Plain", "Under", "CL0", "CL1", "CL2", "CL3"}
+PADDABLE = {"Plain", "Under", "CL0", "CL1", "CL2", "CL3", "CL5"}
 
 SIZE = {
     "S1": [b"1"], "S2": [b"2"], "S3": [b"3"],
@@ -134,11 +135,21 @@ def concretize(ms, variant=0, cut=None):
             c.line(rl, (pick(RLBAD, v), b""), pad["rl"], b"a" * pad["rl"])
         else:
             c.line(rl, pick(RL11 if rl == "RL11" else RL10, v), pad["rl"], b"a" * pad["rl"])
+        emb = pick(RL11, v + 1)
+        emb = emb[0] + emb[1]
         for hi, h in enumerate(m["hdrs"]):
             p = pad["h"] if hi == 0 else 0
+            if h == "CL5" and m["fr"] == "embed":
+                # the declared length is the byte length of the embedded request
+                c.line(h, pick([b"Content-Length: %d", b"content-length:%d", b"CONTENT-LENGTH: \t%d "], v) % (len(emb) + 4), 0, b"")
+                continue
             _hdr(c, h, v + hi + mi, p)
         c.crlf()
-        if m["fr"] == "len":
+        if m["fr"] == "embed":
+            c.emit("RL11", emb)
+            c.crlf()
+            c.crlf()
+        elif m["fr"] == "len":
             for _ in range(m["n"]):
                 _x(c)
         elif m["fr"] == "chunked":
